@@ -175,9 +175,19 @@ func IsConstVal(info *types.Info, k *types.Const) func(ast.Expr) bool {
 }
 
 // BlocksFrom returns the blocks reachable from `from` (the rest of from's
-// block first) without executing a node accepted by avoid.
-func BlocksFrom(from cfgq.Point, after bool, avoid func(ast.Node) bool) map[*cfg.Block]bool {
+// block first) without executing a node accepted by avoid and without
+// continuing through a block listed in stop (stop blocks are reported as
+// reached, but not expanded).
+func BlocksFrom(from cfgq.Point, after bool, avoid func(ast.Node) bool, stop ...*cfg.Block) map[*cfg.Block]bool {
 	seen := map[*cfg.Block]bool{}
+	isStop := func(b *cfg.Block) bool {
+		for _, s := range stop {
+			if s == b {
+				return true
+			}
+		}
+		return false
+	}
 	var walk func(b *cfg.Block, i int)
 	walk = func(b *cfg.Block, i int) {
 		for ; i < len(b.Nodes); i++ {
@@ -188,7 +198,9 @@ func BlocksFrom(from cfgq.Point, after bool, avoid func(ast.Node) bool) map[*cfg
 		for _, s := range b.Succs {
 			if !seen[s] {
 				seen[s] = true
-				walk(s, 0)
+				if !isStop(s) {
+					walk(s, 0)
+				}
 			}
 		}
 	}
@@ -200,18 +212,43 @@ func BlocksFrom(from cfgq.Point, after bool, avoid func(ast.Node) bool) map[*cfg
 	return seen
 }
 
+// CalleeHas reports whether the module function called by call contains,
+// itself or through module callees up to depth levels, a node accepted by pred.
+func CalleeHas(c *core.Ctx, info *types.Info, call *ast.CallExpr, depth int, pred func(*types.Info, ast.Node) bool) bool {
+	if depth == 0 {
+		return false
+	}
+	fn := c.FnOf(core.CalleeFunc(info, call))
+	if fn == nil || fn.Decl.Body == nil || !strings.HasPrefix(fn.Pkg.PkgPath, core.Module) {
+		return false
+	}
+	found := false
+	core.InspectAll(fn.Decl.Body, func(n ast.Node) bool {
+		if found {
+			return false
+		}
+		if pred(fn.Pkg.TypesInfo, n) {
+			found = true
+		} else if cl, ok := n.(*ast.CallExpr); ok && CalleeHas(c, fn.Pkg.TypesInfo, cl, depth-1, pred) {
+			found = true
+		}
+		return !found
+	})
+	return found
+}
+
 // ---------------------------------------------------------------------------
 // origins of a value
 
 // Origin is one definition that may reach an expression.
 type Origin struct {
-	Expr  ast.Expr     // defining expression (the call for tuple results, the ranged expression for range variables)
-	Res   int          // result index for tuple / comma-ok / range definitions, -1 otherwise
-	Range bool         // defined as key (Res 0) or value (Res 1) of a range statement
-	Zero  bool         // declared without initial value
-	Op    token.Token  // compound assignment or ++/-- (Expr is the operand, nil for ++/--)
-	Stmt  ast.Node     // the defining statement
-	Param bool         // Expr is a parameter of the enclosing function
+	Expr  ast.Expr    // defining expression (the call for tuple results, the ranged expression for range variables)
+	Res   int         // result index for tuple / comma-ok / range definitions, -1 otherwise
+	Range bool        // defined as key (Res 0) or value (Res 1) of a range statement
+	Zero  bool        // declared without initial value
+	Op    token.Token // compound assignment or ++/-- (Expr is the operand, nil for ++/--)
+	Stmt  ast.Node    // the defining statement
+	Param bool        // Expr is a parameter of the enclosing function
 }
 
 // Origins chases identifiers of local variables through every assignment
